@@ -62,7 +62,7 @@ class C16(Prop):
                 c["step"] = step
             elif mode == "size":
                 if fn == "range":
-                    c["size"] = rng.choice([n, n, 1, 2, 4, 8, 16])
+                    c["size"] = rng.choice([max(n, 1), max(n, 1), 1, 2, 4, 8, 16])
                     if c["stop"] > c["start"]:
                         d = ((c["stop"] - c["start"]) / c["size"]).denominator
                         if d & (d - 1):
@@ -74,6 +74,9 @@ class C16(Prop):
                 c["samplerate"] = sr
                 k = rng.randint(1, 60)
                 c["stop"] = start + Fraction(k, sr) + (Fraction(rng.choice([0, 0, 1, 3]), 4 * sr))
+            if fn == "time" and c["step"] is not None and c["samplerate"] is None and rng.random() < 0.3:
+                # both given: the documented rule is that the step takes precedence
+                c["samplerate"] = Fraction(1 << rng.randint(0, 6))
             return c
         # stream B: decimal floats
         step_f = rng.choice([0.1, 0.01, 0.3, 1 / 3, 1 / 44100, 1 / 22050, 0.2, 0.7, 1e-3, 2.5])
